@@ -57,6 +57,17 @@ def gen(rng, tier):
         sel = g
     for c in sel:
         cases.append(cell(*c, seed=rng.randint(1, 10**6)))
+    # the same cells through a full server built with HttpServerBuilder (mode S; the builder's setters in both orders):
+    # thresholds below the 8 KiB connection buffer with lengths between threshold and buffer
+    for S in (1, 100, 101, 4096):
+        for M in (S + 1, 9000):
+            for L in (S, S + 1, 200, 5000, 8192, 8193):
+                for kind in ("g", "r", "v"):
+                    c = cell(S, M, L, True, False, "ok", kind, seed=rng.randint(1, 10**6))
+                    if tier == "quick" and rng.random() < 0.5:
+                        continue
+                    t = c.split(" ", 3)          # D <S> <cache> <rest>
+                    cases.append("S %s %s 0 0 %s" % (t[1], t[2], t[3]))
     # "equals byte for byte what the client sent" under a disk write fault while the body is saved (mode X of the
     # shared harness, see props/c10.py): the handler must never be handed a shortened body
     import c10 as _c10
@@ -92,7 +103,7 @@ def classify(case, model):
 
 def nontrivial(case, model):
     t = case.split()
-    return t[0] == "X" or (t[0] == "D" and int(t[t.index("@c09") + 3]) > 0)
+    return t[0] == "X" or (t[0] in ("D", "S") and int(t[t.index("@c09") + 3]) > 0)
 
 
 def pre_proof():
